@@ -22,7 +22,7 @@ ID = "C01"
 LEVEL = "exploration"
 SEGMENT_TIMEOUT = 200
 TIERS = {
-    "quick": dict(plans=144, budget_s=90, det_plans=2, advs=2),
+    "quick": dict(plans=180, budget_s=100, det_plans=2, advs=2),
     "thorough": dict(plans=8000, budget_s=1200, det_plans=8, advs=5, always_selftest=True),
 }
 READS = [(50, 2), (100, 5), (100, 4), (150, 5), (250, 10)]
@@ -30,8 +30,11 @@ READS = [(50, 2), (100, 5), (100, 4), (150, 5), (250, 10)]
 
 SCENARIOS = ["random", "short_reads_clustered_indel", "ambiguous_mnp", "random", "edge_variant", "structural",
              "repeat_insertions", "multiallelic_het", "close_pair"]
-CLOSE = ["ins_ins", "del_del", "ins_del", "del_ins", "snp_ins_anchor", "snp_after_ins", "snp_before_del",
-         "snp_after_del", "snp_snp"]
+CLOSE = ["snp_after_ins", "snp_before_del", "snp_after_del", "ins_ins", "snp_after_ins", "snp_before_del",
+         "snp_after_del", "snp_snp", "snp_ins_anchor", "del_del", "ins_del", "del_ins"]
+# not used here: "snp_under_del" and "mnp_inner_snp" (world.py) - the unchanged tree already mis-calls most such
+# samples (a deletion allele counts as a reference copy inside its own deletion; the last base of a complete
+# multi-nucleotide substitution is also counted for the single substitution catalogued there), see DESIGN 12
 
 
 def gen_plan(rng, tier, i, seed):
@@ -62,7 +65,7 @@ def gen_plan(rng, tier, i, seed):
         o.update(close_pair=CLOSE[(i // len(SCENARIOS)) % len(CLOSE)])
         if os.environ.get("ALDYSIM_C01_CLOSE_D"):  # survey of the distance at which cis indels are lost
             a_, b_ = map(int, os.environ["ALDYSIM_C01_CLOSE_D"].split(","))
-            o.update(close_d=(a_, b_), close_pair=CLOSE[(i // len(SCENARIOS)) % 4])
+            o.update(close_d=(a_, b_), close_pair=["ins_ins", "del_del", "ins_del", "del_ins"][(i // len(SCENARIOS)) % 4])
     elif scen == "multiallelic_het":
         o.update(multiallelic=True, ambiguous=False, n_major=4)
     elif scen == "structural":
@@ -90,12 +93,16 @@ def gen_plan(rng, tier, i, seed):
         onlyb = [a["name"] for a in normal if b_ in a["vars"] and a_ not in a["vars"]]
         anyn = [a["name"] for a in normal]
         form = rng.choice(["cis", "cis", "cis_hom", "trans"])
+        if g.get("no_cis"):
+            form = "trans"
         if form == "trans" and onlya and onlyb:
             units = [{"type": "normal", "allele": onlya[0]}, {"type": "normal", "allele": onlyb[0]}]
         elif form == "cis_hom" and both:
             units = [{"type": "normal", "allele": both[0]}, {"type": "normal", "allele": both[0]}]
         elif both:
             units = [{"type": "normal", "allele": both[0]}, {"type": "normal", "allele": rng.choice(anyn)}]
+        elif g.get("no_cis") and onlya:
+            units = [{"type": "normal", "allele": onlya[0]}, {"type": "normal", "allele": rng.choice(anyn)}]
     elif scen == "repeat_insertions" and g.get("cis_pair"):
         both = [a["name"] for a in normal if set(g["cis_pair"]) <= set(a["vars"])]
         only = [a["name"] for a in normal if g["cis_pair"][0] in a["vars"] and g["cis_pair"][1] not in a["vars"]]
